@@ -43,12 +43,12 @@ def meek_configs(tier):
 
 
 def base_grid(tier, monitors, gregory_only=False, meek_only=False, symtie=False, equal=True, rules=None, extra4=True,
-              withdrawn=True):
+              withdrawn=True, more=0):
     """the common exploration grid.  quick: U(3,3,N,N) N = 5..6, seats 1-2; a few 4-candidate jobs; one withdrawn and
     (mpls) one undeclared configuration.  thorough: larger N, all withdrawn sets, more option configurations."""
     jobs = []
     quick = tier != 'thorough'
-    bump = 0 if quick else 2
+    bump = (0 if quick else 2) + more
     B = 240 if quick else 1500
 
     def want(rule):
